@@ -18,7 +18,7 @@ import sagemodel as sm
 from common import run_driver
 
 TRUSTED = [
-    'Lean 4.33.0 kernel; axioms of every theorem in Props/C02.lean within {propext, Classical.choice, Quot.sound}',
+    'Lean 4.33.0 kernel; axioms of every theorem in Props/C02*.lean within {propext, Classical.choice, Quot.sound}',
     'harness/sagemodel.py (instance generator, serialisation), harness/clmodel.py (cone membership with margins)',
     'Driver.lean / Drv/Sage.lean glue',
 ]
